@@ -66,6 +66,18 @@ def _case(draw):
                 c["a"].append(neg)
             else:
                 c["g"].append(neg)
+    if cls in ("boxed", "wild") and draw(st.integers(0, 7)) == 0:
+        # an assumption and a guarantee over the same variables that differ only in the 6th significant digit: both count
+        v = draw(st.sampled_from(ins))
+        big = float(draw(st.sampled_from([100000, 250000, 40000])))
+        sg = draw(st.sampled_from([1.0, -1.0]))
+        c["a"].append([{v: sg}, big + 1.0])
+        c["g"].append([{v: sg}, big])
+        if draw(st.booleans()):
+            o = outs[0]
+            c["a"].append([{v: big, ins[-1]: -big}, 0.0]) if len(ins) > 1 else None
+            c["g"].append([{o: 1.0, v: -sg}, 0.0])
+        cls = cls + "+near-duplicate"
     k = draw(st.integers(1, min(3, len(names))))
     ovars = draw(st.lists(st.sampled_from(names), min_size=k, max_size=k, unique=True))
     obj = [[v, draw(st.sampled_from([1, -1, 2, -2, 3, -3, 5]))] for v in ovars]
